@@ -7,8 +7,18 @@ INT_KINDS = ["jdkadd", "jdkadd", "jdkadd", "rc", "atomic", "mutexadd"]
 F_KINDS = ["jdkf", "jdkf", "atomicf"]
 
 def rnd_words(rng, n):
+    """what fastrand.Uint32 returns, in order: mostly a tiny palette (collisions), the ends of the 128-cell array of the
+    random-cell adder and of the probe mask, now and then any 31-bit value"""
     m = rng.choice([1, 2, 4, 8])
-    return [rng.randrange(0, m) if rng.random() < 0.85 else rng.randrange(0, 1 << 31) for _ in range(n)]
+    edge = [127, 126, 64, 63, 128, 255, (1 << 31) - 1, 0]
+    def w():
+        r = rng.random()
+        if r < 0.7:
+            return rng.randrange(0, m)
+        if r < 0.88:
+            return rng.choice(edge)
+        return rng.randrange(0, 1 << 31)
+    return [w() for _ in range(n)]
 
 def upd(rng, used, kind, big=False):
     r = rng.random()
@@ -44,7 +54,12 @@ def gen_updates(rng, prefix, kinds, count, nthreads, nops, mode, sums=0.0, big=F
         out.append(conc.Scn("%s%d" % (prefix, i), kind, rnd_words(rng, 40), ths, m, o))
     return out
 
+# growth races are rare events: these families run SAMPLE times the schedules and replay every SAMPLE-th on the model
+# (the monitors judge every run; a run with a monitor verdict is always replayed)
+SAMPLE = 5
+
 def gen_growth(rng, prefix, count, runs, sums=0.0, readers=0):
+    runs *= SAMPLE
     """many colliding updaters on a tiny probe palette: the table is created, attached to, re-sliced
     to its capacity and re-allocated (make+copy) while Sums / other updates are in flight"""
     out = []
@@ -58,13 +73,14 @@ def gen_growth(rng, prefix, count, runs, sums=0.0, readers=0):
         words = [rng.choice([1, 2, 3, 1, 2]) for _ in range(120)]
         m = ("rand %d %d" % (runs, rng.randint(1, 1 << 30))) if i % 2 == 0 else ("pct %d %d %d" % (runs, rng.randint(1, 1 << 30), rng.choice([2, 3, 5])))
         out.append(conc.Scn("%s%d" % (prefix, i), kind, words, ths, m,
-                            {"maxcells": rng.choice([4, 8, 8]), "maxsteps": 20000}))
+                            {"maxcells": rng.choice([4, 8, 8]), "maxsteps": 20000, "sample": SAMPLE}))
     return out
 
 def gen_pregrown(rng, prefix, count, runs, sums=0.0, readers=0):
     """the same from an already grown table (4 of 4, 2 of 4, 8 of 16, 16 of 16 slots; some empty): the next growth
     (re-slice or make+copy) and attaches into empty slots are a couple of collisions away"""
     out = []
+    runs *= SAMPLE
     shapes = [(4, 4, 8), (4, 4, 16), (2, 4, 8), (8, 16, 16), (16, 16, 32)]
     for i in range(count):
         kind = rng.choice(["jdkadd", "jdkadd", "jdkf"])
@@ -81,7 +97,7 @@ def gen_pregrown(rng, prefix, count, runs, sums=0.0, readers=0):
         words = [rng.randint(1, n - 1) if rng.random() < 0.8 else rng.randint(1, 2 * n) for _ in range(120)]
         m = ("rand %d %d" % (runs, rng.randint(1, 1 << 30))) if i % 2 == 0 else ("pct %d %d %d" % (runs, rng.randint(1, 1 << 30), rng.choice([2, 3, 5])))
         out.append(conc.Scn("%s%d" % (prefix, i), kind, words, ths, m,
-                            {"maxcells": mx, "maxsteps": 20000, "pglen": n, "pgcap": cap, "pgmask": mask}))
+                            {"maxcells": mx, "maxsteps": 20000, "pglen": n, "pgcap": cap, "pgmask": mask, "sample": SAMPLE}))
     return out
 
 def rand_mode(tier, q, t):
@@ -93,8 +109,8 @@ def gen_c02(tier, rng):
     s += gen_updates(rng, "b", ["jdkf"], scale(tier, 8, 60), [2, 3], [1, 2, 3], "dfs 2 %d" % scale(tier, 6000, 80000))
     s += gen_updates(rng, "c", ["jdkadd", "jdkadd", "jdkf"], scale(tier, 24, 300), [3, 4, 5], [2, 3, 4], rand_mode(tier, 400, 4000), big=True)
     s += gen_updates(rng, "d", ["rc", "atomic", "atomicf", "mutexadd"], scale(tier, 12, 100), [2, 3], [2, 3], "dfs 2 %d" % scale(tier, 1500, 20000), big=True)
-    s += gen_growth(rng, "g", scale(tier, 12, 100), scale(tier, 400, 4000))
-    s += gen_pregrown(rng, "h", scale(tier, 16, 120), scale(tier, 400, 4000))
+    s += gen_growth(rng, "g", scale(tier, 24, 100), scale(tier, 400, 4000))
+    s += gen_pregrown(rng, "h", scale(tier, 48, 120), scale(tier, 400, 4000))
     return s
 
 def gen_c09(tier, rng):
@@ -103,8 +119,8 @@ def gen_c09(tier, rng):
     s += gen_updates(rng, "b", ["jdkf"], scale(tier, 8, 60), [2, 3], [2, 3], "dfs 2 %d" % scale(tier, 6000, 80000), sums=0.35)
     s += gen_updates(rng, "c", ["jdkadd", "jdkadd", "jdkf"], scale(tier, 24, 300), [3, 4, 5], [2, 3, 4], rand_mode(tier, 400, 4000), sums=0.3)
     s += gen_updates(rng, "d", ["rc", "atomic", "atomicf", "mutexadd"], scale(tier, 10, 80), [2, 3], [2, 3], "dfs 2 %d" % scale(tier, 1500, 20000), sums=0.35)
-    s += gen_growth(rng, "g", scale(tier, 16, 120), scale(tier, 500, 4000), sums=0.0, readers=2)
-    s += gen_pregrown(rng, "h", scale(tier, 20, 150), scale(tier, 500, 4000), sums=0.0, readers=1)
+    s += gen_growth(rng, "g", scale(tier, 24, 120), scale(tier, 500, 4000), sums=0.0, readers=2)
+    s += gen_pregrown(rng, "h", scale(tier, 48, 150), scale(tier, 500, 4000), sums=0.0, readers=1)
     return s
 
 ALLOPS = ["a", "a", "a", "i", "d", "s", "s", "r", "q", "w"]
